@@ -575,6 +575,53 @@ func runC10(c *Ctx) {
 			}
 		}
 	}
+	// or: the test is delegated to a membership predicate called with (Labels, added label)
+	for _, cl := range Calls(lc) {
+		bi, isB := cl.Instr.Common().Value.(*ssa.Builtin)
+		if !isB || bi.Name() != "append" {
+			continue
+		}
+		if _, fld, isF := loadOfField(cl.Instr.Common().Args[0]); !isF || fld != "Labels" {
+			continue
+		}
+		for _, pc := range Calls(lc) {
+			pv, isCall := pc.Instr.(*ssa.Call)
+			if !isCall || pc.Fn == nil {
+				continue
+			}
+			mp := membershipPred(pc.Fn)
+			if mp == nil {
+				continue
+			}
+			var listA, targetA ssa.Value
+			for i, pp := range pc.Fn.Params {
+				if i >= len(pv.Common().Args) {
+					continue
+				}
+				if ssa.Value(pp) == mp.list {
+					listA = pv.Common().Args[i]
+				}
+				if ssa.Value(pp) == mp.target {
+					targetA = pv.Common().Args[i]
+				}
+			}
+			if listA == nil || targetA == nil || !hasField(listA, "Labels") || !hasField(targetA, "Added") {
+				continue
+			}
+			for _, u := range condUsers(pv) {
+				e := 0
+				if u.Neg {
+					e = 1
+				}
+				tb := u.If.Block().Succs[e]
+				if isLoopHeader(tb) && inLoop(cl.Block(), tb) {
+					okDup = true
+				} else if reach, _, _ := pathSearch(lc, nil, tb, func(i ssa.Instruction) bool { return i == cl.Instr }, func(i ssa.Instruction) bool { return isLoopHeader(i.Block()) && inLoop(cl.Block(), i.Block()) }, false); !reach {
+					okDup = true
+				}
+			}
+		}
+	}
 	c.Check(okDup, "R10.5", "LabelChangeOperation.Apply:no-duplicates", w.FnPos(lc), "a label already present is not added again", "an added label that is already present is appended again: the label set gets duplicates")
 	// removals compare with op.Removed
 	okRem := false
